@@ -82,6 +82,9 @@ func VH_C07() {
 	if inherit {
 		flags |= LattrsR
 	}
+	if vParam("lattrs", 0) == 1 && vBool() {
+		flags &^= Lattrs // an unrelated bit: inheritance depends on LattrsR alone
+	}
 	keys := []string{"a", "b", "c"}
 	tag := 0
 	next := func() int { tag++; return tag }
